@@ -126,9 +126,9 @@ func drawFD(t *simrt.Tape) *fdInst {
 	}
 	in.step = math.Ldexp(1, -1-t.Choose(simrt.KWorkload, 4)) // 1/2 .. 1/16
 	in.exact = t.Choose(simrt.KWorkload, 3) != 2
-	if !in.exact && t.Choose(simrt.KWorkload, 2) == 1 {
+	if !in.exact {
 		// a step whose reciprocal is not exact
-		in.step = []float64{0.1, 0.3, 1e-3}[t.Choose(simrt.KWorkload, 3)]
+		in.step = []float64{0.1, 0.3, 1e-3, 0.7, 1.0 / 3, 0.06}[t.Choose(simrt.KWorkload, 6)]
 	}
 	in.origin = t.Choose(simrt.KWorkload, 2) == 1
 	// Only Gradient evaluates f exclusively on private copies in its serial
@@ -190,7 +190,7 @@ func runFD(t *simrt.Tape, rc *RunCtx) *Violation {
 	rc.Instance["origin_known"] = in.origin
 	rc.Instance["exact_arithmetic"] = in.exact
 	rc.Instance["callback_scribbles_on_argument"] = in.scribble
-	rc.declare("concurrent_path_taken", "evaluations_overlapped", "origin_known", "gomaxprocs_1_serial_fallback")
+	rc.declare("two_term_gradient_concurrent_inexact_arithmetic", "concurrent_path_taken", "evaluations_overlapped", "origin_known", "gomaxprocs_1_serial_fallback")
 
 	argDim := in.dim
 	if in.op == 5 {
@@ -388,6 +388,9 @@ func runFD(t *simrt.Tape, rc *RunCtx) *Violation {
 	// order of a two-term sum is immaterial, so the reduction order is fixed
 	// and the answer is owed bit for bit, whatever the step
 	twoTermGradient := in.op == 1 && len(form.f.Stencil) == 2
+	if twoTermGradient && !in.exact && out.Goroutines > 1 {
+		rc.probe("two_term_gradient_concurrent_inexact_arithmetic", 1)
+	}
 	for i := range got {
 		if twoTermGradient && !in.exact && math.Float64bits(got[i]) != math.Float64bits(serial[i]) && !(got[i] == 0 && serial[i] == 0) {
 			return &Violation{prop, "fd/serial-answer-bits/two-term-gradient", fmt.Sprintf("%s (%s, step %v): entry %d is %v with Concurrent, %v serially; each component is a two-term sum, whose order cannot matter", name, form.name, in.step, i, got[i], serial[i])}
